@@ -475,6 +475,18 @@ fn op_strategy(sys: Sys, nkeys: u8) -> BoxedStrategy<Op> {
     // keys skewed towards key 0 so that tasks meet on one key
     let key = prop_oneof![5 => Just(0u8), 3 => Just(1u8), 2 => Just(2u8), 1 => Just(3u8)].prop_map(move |k| k.min(nkeys - 1));
     match sys {
+        // the layered cache without zero-TTL puts: an expired entry in the first layer above an
+        // older value in the disk layer is the put_to_layer staleness listed under C12
+        // ... and without remove and clear: they are sequences of per-layer steps without a common
+        // lock, which is not atomic (two listed findings, kept as stored replays); what is explored
+        // here is lookups against puts, where a value moves between the layers
+        Sys::Multi => (prop_oneof![4 => Just(0u8), 2 => Just(1u8), 4 => Just(2u8)], key)
+            .prop_map(|(o, k)| match o {
+                0 => Op::Get { k },
+                1 => Op::Has { k },
+                _ => Op::Put { k },
+            })
+            .boxed(),
         Sys::Container => (prop_oneof![3 => Just(0u8), 2 => Just(1u8), 3 => Just(2u8), 2 => Just(4u8)], key)
             .prop_map(|(o, k)| match o {
                 0 => Op::Get { k },
@@ -510,7 +522,7 @@ fn random_case(sys: Sys) -> BoxedStrategy<Case> {
     (1u8..=3)
         .prop_flat_map(move |nkeys| {
             let setup_op = match sys {
-                Sys::Container => op_strategy(sys, nkeys).prop_map(|o| Op::Put { k: o.key().unwrap_or(0) }).boxed(),
+                Sys::Container | Sys::Multi => op_strategy(sys, nkeys).prop_map(|o| Op::Put { k: o.key().unwrap_or(0) }).boxed(),
                 _ => (op_strategy(sys, nkeys), any::<bool>()).prop_map(|(o, z)| if z { Op::PutZero { k: o.key().unwrap_or(0) } } else { Op::Put { k: o.key().unwrap_or(0) } }).boxed(),
             };
             (
@@ -756,12 +768,30 @@ fn main() {
         run_dfs_section(&mut ck, "dfs-container", scope, progs, 16, &known_keys);
     }
 
+    {
+        // the layered cache: a value that lives in the disk layer only (setup), looked up, replaced,
+        // removed through both layers
+        let setups: Vec<Vec<Op>> = vec![vec![], vec![Op::Put { k: 0 }]];
+        let alphabet = vec![Op::Get { k: 0 }, Op::Has { k: 0 }, Op::Put { k: 0 }];
+        let (b2, b3) = (tier.pick(2, BOUND), tier.pick(1, 2));
+        let mut progs = programs(Sys::Multi, &alphabet, &setups, &[2, 2], b2);
+        progs.extend(programs(Sys::Multi, &alphabet, &setups, &[2, 2, 2], b3));
+        let scope = format!(
+            "MultiLayerCacheImpl over [MemoryCache, DiskCache], 2 tasks x 2 ops (<= {b2} pre-emptions) and 3 tasks x 2 ops (<= {b3} pre-emptions) over {{get, contains, put}} on key0, one program per symmetry class, setups {{none, value in the disk layer only}}, every schedule at the sched_point sites of the layers: {} programs (remove and clear: see the two stored replays multi-*.json)",
+            progs.len()
+        );
+        run_dfs_section(&mut ck, "dfs-multi", scope, progs, 16, &known_keys);
+    }
+
     // --- random -----------------------------------------------------------------------
     let (kn, kk) = (known.clone(), known_keys.clone());
     ck.run(Section::pbt("random-memory", tier.pick(120_000, 6_000_000), || random_case(Sys::Memory), move |c: &Case| check_case(c, &kn, &kk)).shards(16));
     drain_infra(&mut ck);
     let (kn, kk) = (known.clone(), known_keys.clone());
     ck.run(Section::pbt("random-disk", tier.pick(30_000, 1_500_000), || random_case(Sys::Disk), move |c: &Case| check_case(c, &kn, &kk)).shards(16));
+    drain_infra(&mut ck);
+    let (kn, kk) = (known.clone(), known_keys.clone());
+    ck.run(Section::pbt("random-multi", tier.pick(20_000, 1_000_000), || random_case(Sys::Multi), move |c: &Case| check_case(c, &kn, &kk)).shards(16));
     drain_infra(&mut ck);
     let (kn, kk) = (known.clone(), known_keys.clone());
     ck.run(Section::pbt("random-container", tier.pick(12_000, 600_000), || random_case(Sys::Container), move |c: &Case| check_case(c, &kn, &kk)).shards(16));
